@@ -535,6 +535,22 @@ PropagateWeights and SortWeighted made rows of equal weight swap from run to run
 theorem open_findings : (allowlist.filter (·.verdict == "finding")).map (fun a => (a.site.2.1, a.site.2.2.1)) =
     [] := by decide
 
+/-- **known findings that hang on sites which are not class d** (a sort whose comparator is not total on what is printed, a float sum
+over a slice that is in arrival order): (site, key of known_findings.jsonl).  The verdict of these sites is `finding`, not a claim of
+harmlessness; the site has to be in the census still — when it changes (for instance because /repo repaired it), this list has to
+be looked at again. -/
+def siteFindings : List (Site × String) := [
+  -- transaction.Compare does not look at Targets: same-day transactions of different files that differ only there tie, `print` shows them in arrival order
+  (("lib/journal/process.go", "Sort", "sort", "-", "compare.Sort by transaction.Compare"),
+   "print-same-day-transactions-differing-only-in-targets-in-arrival-order"),
+  -- portfolio returns has no Sort stage: the day's flows are added in float64 in the arrival order of the day's transactions
+  (("lib/journal/performance/performance.go", "Calculator.ComputeFlows", "floatacc", "s", "-= var in range"),
+   "returns-ill-conditioned-period-float-sum-in-arrival-order"),
+  (("lib/journal/performance/performance.go", "Calculator.ComputeFlows", "floatacc", "s", "+= element in range"),
+   "returns-ill-conditioned-period-float-sum-in-arrival-order")]
+
+theorem siteFindings_in_census : siteFindings.all (fun x => Census.all.contains x.1) = true := by decide +kernel
+
 /-- no map range is left unclassified for want of a type -/
 theorem no_untyped_range : (Census.classD.filter (fun s => s.2.2.1 == "range?")) = [] := by decide
 
